@@ -162,6 +162,7 @@ mut("C15 new_zeros fills with ones", [(MAT, "data: SmallVec::from_elem(self.data
 mut("C15 new_zeros_from_num allocates dim + dim", [(MAT, "data: SmallVec::from_elem(builder.zero(), dim * dim),", "data: SmallVec::from_elem(builder.zero(), dim + dim),")], C15="C15-", C10="C10-d")
 # ---- an undecidable statement that contains a value-returning exit must not be skipped ----
 mut("engine: early Ok return behind a test outside the model", [(MAT, "        // start cholesky decomposition", "        if (0..self.dim).rev().all(|i| self[(i, i)] == self.zero()) {\n            return Ok(DecompositionResult { determinant: self.zero(), inverse: self.clone(), q_transposed_inverse: self.clone(), q_transposed: self.clone() });\n        }\n        // start cholesky decomposition")], C15="C15-", C08="C08-c", C10="C10-")
+mut("engine: value-returning exit inside the sector while loop", [(SAM, "        x_vec[edge] = kappa.clone();\n", "        x_vec[edge] = kappa.clone();\n        if x_vec[edge] == rng.zero() {\n            return PermatuhedralSamplingResult { x: x_vec, u_trop, v_trop };\n        }\n")], C07="C07-", C11="C11-")
 # ---- C15-e series, decided at matrix level ----
 _PUSH_OLD = """            let last_power_of_n = powers_of_n
                 .last()
